@@ -157,3 +157,54 @@ Theorem C03_bnot_float_messages_differ : forall exec st,
   res_value (eval_ast (to_term2 t)) = err (lit "type").
 Proof. exact bnot_float_counterexample. Qed.
 Print Assumptions C03_bnot_float_messages_differ.
+
+(* ---- every kind of operand (Proofs/ExprFacts3.v) ----
+   tree3: the full grammar above with the operand leaves the lexer accepts besides numbers:
+   `$name` and `${name}` (a scalar of the current scope), quoted strings without brackets, dollars, backslashes or quotes,
+   braced strings without `{ } \`, `[script]` for any well-formed script tree of
+   Spec/SpecGrammar.v, and the boolean words true/false/yes/no/on/off.  `ev3` is the reference
+   evaluator: state-passing, left to right, C's rules for `&&`, `||`, `?:`; `top_res` is the
+   conversion `expr` applies to its result.  Not covered: `$a(index)`, quoted strings with
+   substitutions, braced strings with nested braces or backslashes (tested only). *)
+From Molt Require Proofs.ExprFacts3.
+
+Theorem C03_operand_completeness : forall exec st t lead trail,
+  ExprFacts3.ok3_std t = true -> ws lead = true -> ws trail = true ->
+  expr_eval (u_alnum std_uni) (u_alpha std_uni) exec st (VStr (lead ++ ExprFacts3.render3 t ++ trail)) =
+  (fst (ExprFacts3.ev3 exec t st), ExprFacts3.top_res (snd (ExprFacts3.ev3 exec t st))).
+Proof. exact ExprFacts3.expr_eval_render3_std. Qed.
+Print Assumptions C03_operand_completeness.
+
+(* without command substitutions the state is returned as it was and the executor is irrelevant *)
+Theorem C03_operand_frame : forall exec st t lead trail,
+  ExprFacts3.ok3_std t = true -> ExprFacts3.no_cmd t = true -> ws lead = true -> ws trail = true ->
+  expr_eval (u_alnum std_uni) (u_alpha std_uni) exec st (VStr (lead ++ ExprFacts3.render3 t ++ trail)) =
+  (st, res_value (snd (ExprFacts3.ev3 exec t st))).
+Proof. exact ExprFacts3.expr_eval_render3_pure. Qed.
+Print Assumptions C03_operand_frame.
+
+(* how a variable's, a string's and a command's value enters the arithmetic *)
+Theorem C03_variable_operand_value : forall exec n st,
+  ExprFacts3.ev3 exec (ExprFacts3.X3 (ExprFacts3.KVar n)) st = (st, ExprFacts3.rb (st_scalar st n) expr_parse_value) /\
+  ExprFacts3.ev3 exec (ExprFacts3.X3 (ExprFacts3.KVarB n)) st = (st, ExprFacts3.rb (st_scalar st n) expr_parse_value).
+Proof. exact ExprFacts3.var_leaf_value. Qed.
+Print Assumptions C03_variable_operand_value.
+
+Theorem C03_string_operand_value : forall exec s st,
+  ExprFacts3.ev3 exec (ExprFacts3.X3 (ExprFacts3.KQuo s)) st = (st, expr_parse_string s) /\
+  ExprFacts3.ev3 exec (ExprFacts3.X3 (ExprFacts3.KBrace s)) st = (st, expr_parse_string s).
+Proof. exact ExprFacts3.string_leaf_value. Qed.
+Print Assumptions C03_string_operand_value.
+
+Theorem C03_command_operand_value : forall exec sc st,
+  ExprFacts3.ev3 exec (ExprFacts3.X3 (ExprFacts3.KCmd sc)) st =
+  (fst (eval_script exec st (ExprFacts3.cmd_script sc)),
+   ExprFacts3.rb (snd (eval_script exec st (ExprFacts3.cmd_script sc))) expr_parse_value).
+Proof. exact ExprFacts3.cmd_leaf_value. Qed.
+Print Assumptions C03_command_operand_value.
+
+Theorem C03_unknown_variable_operand : forall exec n st, sc_lookup (i_scopes st) n = None ->
+  ExprFacts3.ev3 exec (ExprFacts3.X3 (ExprFacts3.KVar n)) st =
+  (st, err (lit "can't read """ ++ n ++ lit """: no such variable")).
+Proof. exact ExprFacts3.unknown_var_message. Qed.
+Print Assumptions C03_unknown_variable_operand.
